@@ -393,6 +393,14 @@ func runEntryWith(w *refgraph.World, call entryCall, cache spec.ResolutionCache,
 				return
 			}
 			out, err = spec.ResolveRefWithBase(root, &ref, opts)
+		case "resolveLoc":
+			// the root is known by its location only: the document is fetched through the loader
+			ref, e := spec.NewRef(call.Ref)
+			if e != nil {
+				err = e
+				return
+			}
+			out, err = spec.ResolveRefWithBase(nil, &ref, opts)
 		case "metaresolve":
 			// resolve a whole built-in meta-schema, then work on the result as a caller would (it is the caller's)
 			u := builtinURLs[0]
@@ -489,7 +497,7 @@ func kindOfEntry(e string) string {
 	switch e {
 	case "meta", "metaresolve":
 		return "meta"
-	case "schemaWithBase", "schemaRoot", "resolve":
+	case "schemaWithBase", "schemaRoot", "resolve", "resolveLoc":
 		return "schema"
 	case "paramRoot":
 		return "parameter"
@@ -549,6 +557,8 @@ func cacheFamilies() []graphFamily {
 		{"elements-acyclic", refgraph.Options{Docs: 4, Defs: 2, Elements: true, RefP: 0.6, Spellings: true}},
 		{"http-and-dirs", refgraph.Options{Docs: 6, Defs: 2, Elements: true, Cycles: true, RefP: 0.5, Spellings: true, HTTP: true}},
 		{"single-doc-cyclic", refgraph.Options{Docs: 1, Defs: 4, Elements: true, Cycles: true, RefP: 0.6}},
+		// documents whose locations differ only by port, by scheme/host, or by letter case
+		{"same-path-twins", refgraph.Options{Docs: 6, Defs: 2, Elements: true, Cycles: true, RefP: 0.6, Spellings: true, Twins: true}},
 	}
 }
 
@@ -834,10 +844,17 @@ func runC16(c *Ctx) {
 			single = refgraph.Generate(c.Rng, refgraph.Options{Docs: 1, Defs: 3, Elements: true, Cycles: h%2 == 0, RefP: 0.6})
 		}
 		length := 4 + c.Intn(maxLen-3)
-		for step := 0; step < length; step++ {
+		// the history ends with resolutions by location against each world of the family in turn (same URLs, other
+		// content): whatever an earlier call fetched must be fetched again
+		tail := len(worlds) + 1
+		for step := 0; step < length+tail; step++ {
 			var w *refgraph.World
 			var call entryCall
-			switch c.Intn(7) {
+			pick := c.Intn(7)
+			if step >= length {
+				pick = 5
+			}
+			switch pick {
 			case 0, 1, 2:
 				w = worlds[c.Intn(len(worlds))]
 				call = entryCall{Entry: "spec", Skip: c.Coin(0.2), Cont: c.Coin(0.2), Abs: c.Coin(0.3)}
@@ -857,6 +874,9 @@ func runC16(c *Ctx) {
 				call = els[c.Intn(len(els))]
 			case 5:
 				w = worlds[c.Intn(len(worlds))]
+				if step >= length {
+					w = worlds[(step-length)%len(worlds)]
+				}
 				els := rootElements(w, "definitions", "resolve")
 				if len(els) == 0 {
 					continue
@@ -864,6 +884,9 @@ func runC16(c *Ctx) {
 				call = els[c.Intn(len(els))]
 				call.Ref = "#/definitions/" + refgraph.PtrEscape(call.Path[1])
 				call.Path = nil
+				if step >= length || c.Coin(0.5) {
+					call.Entry = "resolveLoc"
+				}
 			default:
 				w = single
 				call = entryCall{Entry: []string{"meta", "metaresolve"}[c.Intn(2)], Ref: []string{"swagger", "draft4"}[c.Intn(2)]}
